@@ -296,9 +296,8 @@ func (h *harness) evalParse(p pcase, w *wk) (*ocsp.Response, error) {
 			if p.serial != nil {
 				what = "ParseResponseForCert(first matching serial)"
 			}
-			for _, f := range bad {
-				h.c.Violation(what+": field "+f+" differs from the signed TBSResponseData", h.wit(p, fmt.Sprintf("single #%d of %d", idx, len(rt.Singles))))
-			}
+			// one signature per defect: named after the first differing field (fixed field order), all of them in the witness
+			h.c.Violation(what+": field "+bad[0]+" differs from the signed TBSResponseData", h.wit(p, fmt.Sprintf("single #%d of %d; differing fields %v", idx, len(rt.Singles), bad)))
 		}
 	}
 	return r, nil
@@ -380,8 +379,8 @@ func (h *harness) runTemplate(t tmpl, w *wk) (der []byte, tbs []byte) {
 		} else {
 			add("certs", len(outer.Certs) == 0)
 		}
-		for _, f := range bad {
-			viol("CreateResponse: "+f+" in the DER differs from the template", hex.EncodeToString(der))
+		if len(bad) > 0 {
+			viol("CreateResponse: "+bad[0]+" in the DER differs from the template", fmt.Sprintf("differing fields %v; %x", bad, der))
 		}
 	}
 	// produced signature, judged by the standard library
@@ -426,9 +425,9 @@ func (h *harness) runTemplate(t tmpl, w *wk) (der []byte, tbs []byte) {
 		if t.C.Ext == 2 {
 			viol("response with an unknown critical singleExtension accepted", hex.EncodeToString(der))
 		}
-		for _, f := range cmpFields(r, &refTBS{ResponderTag: 1, ResponderBody: sc.RespSubject}, want, false) {
-			viol("round trip: field "+f+" differs from the template", fmt.Sprintf("got status=%d serial=%v this=%v next=%v revokedAt=%v reason=%d hash=%v name=%x",
-				r.Status, r.SerialNumber, r.ThisUpdate, r.NextUpdate, r.RevokedAt, r.RevocationReason, r.IssuerHash, r.RawResponderName))
+		if bad := cmpFields(r, &refTBS{ResponderTag: 1, ResponderBody: sc.RespSubject}, want, false); len(bad) > 0 {
+			viol("round trip: field "+bad[0]+" differs from the template", fmt.Sprintf("differing fields %v; got status=%d serial=%v this=%v next=%v revokedAt=%v reason=%d hash=%v name=%x",
+				bad, r.Status, r.SerialNumber, r.ThisUpdate, r.NextUpdate, r.RevokedAt, r.RevocationReason, r.IssuerHash, r.RawResponderName))
 		}
 	}
 	// --- parse back without issuer (no binding asserted, same fields) ---
@@ -438,8 +437,8 @@ func (h *harness) runTemplate(t tmpl, w *wk) (der []byte, tbs []byte) {
 		if t.C.Ext == 2 {
 			viol("response with an unknown critical singleExtension accepted", hex.EncodeToString(der))
 		}
-		for _, f := range cmpFields(r2, &refTBS{ResponderTag: 1, ResponderBody: sc.RespSubject}, want, false) {
-			viol("round trip (issuer nil): field "+f+" differs from the template", hex.EncodeToString(der))
+		if bad := cmpFields(r2, &refTBS{ResponderTag: 1, ResponderBody: sc.RespSubject}, want, false); len(bad) > 0 {
+			viol("round trip (issuer nil): field "+bad[0]+" differs from the template", fmt.Sprintf("differing fields %v; %x", bad, der))
 		}
 	} else if sc.Positive && !strings.HasPrefix(perr2.Error(), "panic") && !(t.C.Ext == 2 && errClass(perr2) == "unsupported critical extension") {
 		viol("valid response rejected without issuer ("+sc.Kind+"): "+errClass(perr2), perr2.Error()+" "+hex.EncodeToString(der))
@@ -950,9 +949,7 @@ func (h *harness) multi(w *wk) {
 						}
 					case want >= 0 && err == nil:
 						if bad := cmpFields(r, nil, singles[want], false); len(bad) > 0 {
-							for _, f := range bad {
-								c.Violation("ParseResponseForCert: field "+f+" is not that of the FIRST SingleResponse with the serial", h.wit(pc, fmt.Sprintf("expected single #%d", want)))
-							}
+							c.Violation("ParseResponseForCert: field "+bad[0]+" is not that of the FIRST SingleResponse with the serial", h.wit(pc, fmt.Sprintf("expected single #%d; differing fields %v", want, bad)))
 						}
 						w.hist[fmt.Sprintf("multi: returned the first match (position %d of %d)", want, len(pt))]++
 					case want == -1 && err != nil:
